@@ -55,6 +55,19 @@ def generate(rng, tier, seed):
                     ["p", ["sleep", 1]] + [["next", 0, v] for v in items] + [["repoll", 0], last]],
                    ["fini"], ["sched"] + sched]
             cases.append({"scn": scn, "sched": sched, "items": items, "en": list(en) if en != "c" else "c", "pipe": "(hot replay)+repoll", "repoll": True})
+    # a ReplaySubject that already has a history, awaited while another thread pushes: the item pushed DURING the replay to the new
+    # awaiter must be in the result (once), whichever side of the replay it falls on
+    for _ in range(12 if thorough else 4):
+        hist = [rng.choice([1, 2, 3]) for _ in range(rng.randrange(1, 4))]
+        live = [90 + i for i in range(rng.randrange(1, 3))]
+        en = rng.choice(["c", ("e", 5)])
+        last = ["complete", 0] if en == "c" else ["error", 0, en[1]]
+        base = seed * 1000 + rng.randrange(1000)
+        for sched in (["random", base, 80 if thorough else 30], ["pct", 3, base, 60 if thorough else 20]):
+            scn = ["conc", ["objects", ["subject", "replay"], ["tovec", rng.choice([["hot", 0], ["op", "map", [["add", 0]], ["hot", 0]]])]],
+                   ["init"] + [["next", 0, v] for v in hist],
+                   ["threads", ["w", ["block_on", 0]], ["p"] + [["next", 0, v] for v in live] + [last]], ["fini"], ["sched"] + sched]
+            cases.append({"scn": scn, "sched": sched, "items": hist + live, "en": list(en) if en != "c" else "c", "pipe": "(hot replay with history)+live"})
     # the SAME Observable value awaited twice in a row (to_vec() twice on one observe_on / subscribe_on pipeline): the second future
     # resolves like the first
     for p in ([["op", "observe_on", [], ["from_iter", 1, 2]], ["op", "subscribe_on", [], ["from_iter", 1, 2]], ["op", "map", [["id"]], ["op", "observe_on", [], ["just", 7]]]]):
